@@ -258,6 +258,68 @@ def value_rule(kind: int, spell: int, k_next: int, third: bool, lenient: bool) -
     return untraced(_value_rule_case, conc_int(kind, 0, 1), conc_int(spell, 0, 1), conc_int(k_next, 0, len(NEXT) - 1), conc_bool(third), conc_bool(lenient))
 
 
+# ---- a run of three or more dashes is never an option, whatever follows it
+def _dash_run_case(skel_name, k, oi, form, lenient):
+    skel = pfmt.SKELS_ALL[skel_name]
+    o = skel.all_opts[oi % len(skel.all_opts)]
+    name = o.long if form == 0 or not o.short else o.short
+    token = "-" * k + name + ("=1" if form == 2 else "")
+    try:
+        a = DefaultArgsParser().parse(ArgvArgs(["prog", token]), skel.fmt, lenient)
+        got = ("ok", a.options(False))
+    except (CannotParseArgsException, NoSuchOptionException) as e:
+        got = (type(e).__name__,)
+    if lenient:
+        return got == ("ok", {})
+    return got == ("NoSuchOptionException",)
+
+
+def dash_run(k: int, oi: int, form: int, lenient: bool) -> bool:
+    """
+    pre: 3 <= k <= 5 and 0 <= oi <= 2 and 0 <= form <= 2
+    post: _
+    """
+    from vf.sym import conc_bool, conc_int, untraced
+    return untraced(_dash_run_case, PART["skel"], conc_int(k, 3, 5), conc_int(oi, 0, 2), conc_int(form, 0, 2), conc_bool(lenient))
+
+
+# ---- the same rules through Command.parse: an explicit mode wins over the command's configured leniency
+def _command_parse_case(configured, explicit, li):
+    from clikit.api.args.format.argument import Argument
+    from clikit.api.args.format.option import Option
+    from clikit.api.command.command import Command
+    from clikit.api.config.command_config import CommandConfig
+    cc = CommandConfig("cmd")
+    cc.add_argument("a", Argument.REQUIRED)
+    cc.add_option("flag", "f")
+    cc.add_option("opt", "o", Option.REQUIRED_VALUE)
+    if configured:
+        cc.enable_lenient_args_parsing()
+    cmd = Command(cc)
+    line, fault = [(["x"], None), (["x", "--zz"], "NoSuchOptionException"), (["x", "--flag=1"], "CannotParseArgsException"), (["x", "-o"], "CannotParseArgsException"),
+                   ([], "CannotParseArgsException"), (["x", "y"], "CannotParseArgsException")][li]
+    raw = ArgvArgs(["prog"] + line)
+    try:
+        if explicit == 2:
+            cmd.parse(raw)
+        else:
+            cmd.parse(raw, explicit == 1)
+        got = None
+    except (CannotParseArgsException, NoSuchOptionException) as e:
+        got = type(e).__name__
+    effective_lenient = configured if explicit == 2 else (explicit == 1)
+    return got == (None if effective_lenient else fault)
+
+
+def command_parse(configured: bool, explicit: int, li: int) -> bool:
+    """
+    pre: 0 <= explicit <= 2 and 0 <= li <= 5
+    post: _
+    """
+    from vf.sym import conc_bool, conc_int, untraced
+    return untraced(_command_parse_case, conc_bool(configured), conc_int(explicit, 0, 2), conc_int(li, 0, 5))
+
+
 def conditions(tier):
     quick = tier == "quick"
     t = 90 if quick else 600
@@ -287,6 +349,11 @@ def conditions(tier):
     for sk in sorted(DD_SKELS):
         conds.append({"name": "dd_tail[%s]" % sk, "fn": dd_tail, "timeout": t, "part": {"skel": sk},
                       "bounds": "format %s: 0-2 plain words, '--', then 0-2 tokens from %r (everything after the first '--' is positional): strict accepts exactly when the number of positionals fits, with every one of them assigned in order; lenient never fails" % (sk, TAIL_MENU)})
+    for sk in ("S1", "S2", "S11"):
+        conds.append({"name": "dash_run[%s]" % sk, "fn": dash_run, "timeout": t, "part": {"skel": sk},
+                      "bounds": "format %s: 3-5 dashes directly followed by the long or short name of one of its options (also with '=1'): strict reports an unknown option, lenient sets nothing" % sk})
+    conds.append({"name": "command_parse", "fn": command_parse, "timeout": t,
+                  "bounds": "Command.parse on a command configured strict / lenient, called with lenient=False / True / left out, on a valid line and 5 single faults: the explicit mode wins, the configured one applies when it is left out"})
     conds.append({"name": "value_rule", "fn": value_rule, "timeout": t,
                   "bounds": "a value-taking option (required value on S1, optional value on S2; long and short spelling) followed by a token from %r and optionally one more word: a dash token or the separator is never taken as the value - "
                             "strict rejects a left-out required value with the cannot-parse error whatever follows, an optional value falls back to its default, lenient never fails" % (NEXT,)})
